@@ -353,12 +353,12 @@ def part_c(ctx, big_mib):
 
 def run_shard(ctx):
     quick = ctx.tier == 'quick'
-    ctx.set_budget(45 if quick else 1500)
+    ctx.set_budget(45 if quick else 1100)
     run_histories(ctx, PROP, gen.history_case(WEIGHTS, min_ops=3, max_ops=30 if quick else 70, max_size=70000), checkers_a, nontrivial_a, 40 if quick else 800)
     if ctx.stats.violations:
         return
     ctx.set_budget(25 if quick else 900)
-    explore(ctx, strategy_b(), run_case_b, 60 if quick else 2000, salt=1)
+    explore(ctx, strategy_b(), run_case_b, 60 if quick else 8000, salt=1)
     if ctx.stats.violations:
         return
     part_c(ctx, 8 if quick else 32)
